@@ -118,3 +118,22 @@ R("C16", "identity-guard-instead-of-snapshot", PDF, "            new_values = ma
 R("C16", "explicit-iadd", MCF, "    def append(self, item):\n        self._add_item(item)\n", "    def append(self, item):\n        self._add_item(item)\n\n    def __iadd__(self, items):\n        self.extend(items)\n        return self\n")
 R("C16", "rename-loop-var", MCF, "        for item in items:\n            self._add_item(item)\n", "        for element in items:\n            self._add_item(element)\n")
 R("C16", "tuple-snapshot", PDF, "            new_values = make_list(value)\n", "            new_values = tuple(make_list(value))\n")
+
+# ------------------------------------------------------------------------------------- C12
+PRF = "krrood/entity_query_language/predicate.py"
+M("C12", "symfun-default-flag", PRF, "            function, args, kwargs, ignore_first=False\n", "            function, args, kwargs\n", "wrapper#ignore_first")
+M("C12", "predicate-flag-false", PRF, "            cls.__init__, args, kwargs, ignore_first=True\n", "            cls.__init__, args, kwargs, ignore_first=False\n", "Predicate.__new__#ignore_first")
+M("C12", "merge-default-flip-only", PRF, "function: Callable, args, kwargs, ignore_first: bool = True", "function: Callable, args, kwargs, ignore_first: bool = False", "", allow_error=False) if False else None
+M("C12", "merge-start-swapped", PRF, "starting_index = 1 if ignore_first else 0", "starting_index = 0 if ignore_first else 1", "merge_args_and_kwargs#slice")
+M("C12", "merge-drops-kwargs", PRF, "    all_kwargs.update(kwargs)\n", "", "kwargs-override")
+M("C12", "symbolic-test-kwargs-only", PRF, "        if _any_of_the_kwargs_is_a_variable(all_kwargs):\n            return Variable(\n                _name__=function.__name__,", "        if _any_of_the_kwargs_is_a_variable(kwargs):\n            return Variable(\n                _name__=function.__name__,", "wrapper#symbolic-test")
+M("C12", "symbolic-runs-function", PRF, "            return Variable(\n                _name__=function.__name__,\n                _type_=function,", "            function(*args, **kwargs)\n            return Variable(\n                _name__=function.__name__,\n                _type_=function,", "symbolic-runs-nothing")
+M("C12", "concrete-drops-kwargs", PRF, "        return function(*args, **kwargs)", "        return function(*args)", "concrete-branch")
+M("C12", "variable-loses-kwargs", PRF, "                _type_=cls,\n                _name__=cls.__name__,\n                _kwargs_=all_kwargs,", "                _type_=cls,\n                _name__=cls.__name__,\n                _kwargs_=kwargs,", "Predicate.__new__#symbolic-branch")
+M("C12", "predicate-not-called", SYM, "            if self._predicate_type_ == PredicateType.SubClassOfPredicate:\n                instance = instance()\n", "", "predicate-called")
+M("C12", "truth-inverted", SYM, "return OperationResult(values, not bool(instance), self)", "return OperationResult(values, bool(instance), self)", "truth")
+M("C12", "double-invocation", SYM, "            instance = self._type_(**{k: hv.value for k, hv in bound_kwargs.items()})\n", "            instance = self._type_(**{k: hv.value for k, hv in bound_kwargs.items()})\n            instance = self._type_(**{k: hv.value for k, hv in bound_kwargs.items()})\n", "one-keyword-call")
+M("C12", "any-to-all", SYM, "    return any(\n        isinstance(binding, CanBehaveLikeAVariable) for binding in bindings.values()\n    )", "    return all(\n        isinstance(binding, CanBehaveLikeAVariable) for binding in bindings.values()\n    )", "any-value")
+R("C12", "flag-positional", PRF, "            function, args, kwargs, ignore_first=False\n", "            function, args, kwargs, False\n")
+R("C12", "rename-merged", PRF, "all_kwargs", "merged", count=99)
+CASES[:] = [c for c in CASES if c]
